@@ -516,3 +516,34 @@ def badwell_programs(dev):
         progs.append(h)
         k += 1
     return progs
+
+
+def rounding_programs(dev, r):
+    """Volumes with three decimals (unit = 1/1000 microlitre, third decimal never 5): the records carry the
+    volume rounded to two decimals; robot and twin may differ by half a hundredth per record (C01)."""
+    progs = []
+    for n in range(6):
+        lws = [gen.mk_plate("plate", 3, 4, 0, 2000000, [r.choice([0, 500000, 1234567]) for _ in range(12)]),
+               gen.mk_trough("trough", 4, 2, 1000, 90000000, [50000000, 40000000])]
+        h = gen.header(f"rounding/{n}", dev, Fraction(1, 1000), 950000, lws, flags={"comp": False, "norm": False})
+        h["millis"] = True
+        ops = []
+        for _ in range(8):
+            k = r.randrange(2)
+            spec = lws[k]
+            wells = [list(r.choice(gen.id_wells(spec))) for _ in range(r.randint(1, 4))]
+            vols = []
+            for _w in wells:
+                v = r.choice([r.randint(1, 99999), r.randint(1, 999), 12344, 12346, 4, 6, 10001, 9999])
+                if v % 10 == 5:
+                    v += 1
+                vols.append(v)
+            name = r.choice(["aspirate", "dispense", "dispense"])
+            if name == "aspirate":
+                # keep removals affordable: only from the trough or from filled wells
+                k, spec = 1, lws[1]
+                wells = [list(r.choice(gen.id_wells(spec))) for _ in wells]
+            ops.append({"op": name, "lw": k, "wells": {"k": "l", "x": wells}, "vols": {"k": "l", "x": vols}, "label": None})
+        h["ops"] = ops
+        progs.append(h)
+    return progs
